@@ -237,6 +237,10 @@ def is_sym(x):
 
 # ----------------------------------------------------------------------------------------
 
+import os as _os
+XCHECK_EVERY = int(_os.environ.get("VT_XCHECK", "0") or 0)     # cross-check every n-th discharged check with second solvers (0 = off)
+
+
 class Result:
     def __init__(self, name):
         self.name = name
@@ -255,6 +259,41 @@ class Result:
         self.reached = set()      # labels of checks reached (vacuity guard)
         self.wall_s = 0.0
         self.exhausted = False
+        self.xcheck = {}          # second-solver cross-checks of 'unsat' verdicts: {solver: {verdict: count}}
+
+
+XCHECK_SOLVERS = [("z3-4.8.12", ["/usr/bin/z3", "-T:20", "-smt2"]), ("cvc5-1.0", ["cvc5", "--lang=smt2", "--tlimit=20000", "--strings-exp"])]
+
+
+def cross_check_unsat(assertions, res):
+    """re-decide a query our solver answered 'unsat' with independent solver binaries; returns the name of a solver that says
+    'sat' (a disagreement), else None.  'unknown', time-outs and parse errors only count as 'not confirmed'."""
+    import subprocess, tempfile, os
+    tmp = z3.Solver()
+    tmp.add(*assertions)
+    text = "(set-logic ALL)\n" + tmp.to_smt2()
+    fd, path = tempfile.mkstemp(suffix=".smt2", prefix="vt-xcheck-")
+    try:
+        with os.fdopen(fd, "w") as f:
+            f.write(text)
+        for name, cmd in XCHECK_SOLVERS:
+            try:
+                out = subprocess.run(cmd + [path], stdout=subprocess.PIPE, stderr=subprocess.STDOUT, timeout=40).stdout.decode(errors="replace")
+            except Exception:
+                out = "error"
+            lines = [l.strip() for l in out.splitlines() if l.strip()]
+            verdict = "error" if any(l.startswith("(error") for l in lines) else (lines[0] if lines and lines[0] in ("sat", "unsat", "unknown") else "other")
+            d = res.xcheck.setdefault(name, {})
+            d[verdict] = d.get(verdict, 0) + 1
+            if verdict == "sat":
+                keep = path + ".disagreement"
+                os.replace(path, keep)
+                path = None
+                return "%s (query kept at %s)" % (name, keep)
+    finally:
+        if path and os.path.exists(path):
+            os.unlink(path)
+    return None
 
 
 class Concrete:
@@ -505,6 +544,13 @@ class Explorer:
         if not t and not f:
             self.infeasible = True
             raise PathAbort("infeasible path condition")
+        if XCHECK_EVERY and (t != f):
+            # one side was pruned as infeasible: an 'unsat' verdict that, if wrong, would silently lose paths
+            self.res.unsat_verdicts = getattr(self.res, "unsat_verdicts", 0) + 1
+            if self.res.unsat_verdicts == 3 or self.res.unsat_verdicts % XCHECK_EVERY == 0:
+                who = cross_check_unsat(list(self.solver.assertions()) + [z3.Not(cond) if t else cond], self.res)
+                if who:
+                    self.taint("solver disagreement on a pruned branch: %s says sat where z3 %s says unsat" % (who, z3.get_version_string()))
         if t and f:
             self.newforks.append(self.log[:self.pos] + [False])
             d = True
@@ -582,6 +628,12 @@ class Explorer:
         if self._check(z3.Not(cond)):
             self._violation(label, self.last_model)
             return False
+        every = XCHECK_EVERY
+        self.res.unsat_verdicts = getattr(self.res, "unsat_verdicts", 0) + 1
+        if every and (self.res.unsat_verdicts == 3 or self.res.unsat_verdicts % every == 0):
+            who = cross_check_unsat(list(self.solver.assertions()) + [z3.Not(cond)], self.res)
+            if who:
+                self.taint("solver disagreement: %s says sat where z3 %s says unsat" % (who, z3.get_version_string()))
         return True
 
     def model_values(self, model):
